@@ -61,7 +61,15 @@ class Module:
     def state_dict(self):
         return dict(self._params)          # references, as in PyTorch
 
-    def load_state_dict(self, sd):
+    def load_state_dict(self, sd, strict=True, assign=False, **kw):
+        if kw:
+            raise torch.StubIncomplete(f"stand-in Module.load_state_dict has no argument {sorted(kw)}")
+        if assign:
+            # torch >= 2.1: the module ADOPTS the given tensors instead of copying into its own - from then on the two
+            # modules share them (the tensors keep reporting the module they were created for)
+            for k in list(self._params):
+                self._params[k] = sd[k]
+            return
         for k, p in self._params.items():  # element by element: not atomic
             p.copy_(sd[k])
 
